@@ -51,6 +51,11 @@ def observe_op(case):
     res = json_to_cel({"k": to_policy(r)})
     bind = {"resource": res, "now": ct.TimestampType(celx.rfc3339(NOW_US))}
     got = celx.strip_py(celx.outcome_abs(celx.run(text, bind, "I", functions=c7nlib.FUNCTIONS)))
+    gotc = celx.strip_py(celx.outcome_abs(celx.run(text, bind, "C", functions=c7nlib.FUNCTIONS)))
+    if gotc != got and gotc.get("t") != "err" and got.get("t") != "err":
+        got = {"t": "runners-differ", "I": got, "C": gotc}
+    elif gotc != got:
+        got = {"t": "runners-differ", "I": got, "C": gotc} if {gotc.get("t"), got.get("t")} != {"err"} else got
     return text, got, flt
 
 
@@ -64,6 +69,32 @@ def _replay_op(item):
         bad.append(("op=%s value_type=%s operands=%s,%s: %s" % (case["op"], case["vt"], kind(case["r"]), kind(case["v"]),
                                                                "opposite decision" if got["t"] == "bool" else got["t"] + (":" + got.get("cls", "") if got["t"] == "exc" else "")),
                     {"filter": flt, "resource": {"k": to_policy(celx.dec(case["r"]))}, "cel": text, "expected": exp["v"], "observed": got}))
+    return text, bad
+
+
+def _replay_presence(item):
+    case, exp = item
+    form, res, value = case["form"], case["res"], case["value"]
+    if form == "key":
+        flt = {"type": "value", "key": "k", "value": value}
+        doc = {} if res == "missing" else {"k": None if res == "null" else "a"}
+    elif form == "path":
+        flt = {"type": "value", "key": "a.k", "value": value}
+        doc = {"a": {}} if res == "missing" else {"a": {"k": None if res == "null" else "v"}}
+    else:
+        flt = {"tag:Owner": value}
+        doc = {"Tags": [{"Key": "Other", "Value": "x"}] + ([] if res == "missing" else [{"Key": "Owner", "Value": None if res == "null" else "me"}])}
+    bad = []
+    try:
+        text = C7N_Rewriter.primitive("ec2", flt)
+    except Exception as ex:  # noqa: BLE001
+        return None, [("presence: translator raises %s" % type(ex).__name__, {"filter": flt})]
+    bind = {"resource": json_to_cel(doc)}
+    for r in ("I", "C"):
+        got = celx.strip_py(celx.outcome_abs(celx.run(text, bind, r, functions=c7nlib.FUNCTIONS)))
+        if got != {"t": "bool", "v": exp["v"]}:
+            bad.append(("presence value=%s attribute=%s form=%s: %s runner=%s" % (value, res, form, "opposite decision" if got["t"] == "bool" else got["t"], r),
+                        {"filter": flt, "resource": doc, "cel": text, "expected": exp["v"], "observed": got, "runner": r}))
     return text, bad
 
 
@@ -99,6 +130,9 @@ def _replay_literal(s):
     for site, text in literal_sites(s):
         evs.append({"kind": "literal", "s": [ord(c) for c in s], "text": [ord(c) for c in text], "site": site})
         got = celx.strip_py(celx.outcome_abs(celx.run(text, {}, "I", cache=False)))
+        gotc = celx.strip_py(celx.outcome_abs(celx.run(text, {}, "C", cache=False)))
+        if got == {"t": "string", "v": s} and gotc != got:
+            got = gotc if gotc.get("t") != "exc" else {"t": "exc:%s under CompiledRunner" % gotc.get("cls")}
         if got != {"t": "string", "v": s}:
             chars = sorted(set("quote" if c in "\"'" else "backslash" if c == "\\" else "control" if ord(c) < 32 else "nonascii" if ord(c) > 126 else "plain" for c in s) - {"plain"})
             bad.append(("literal via %s chars{%s}: %s" % (site, ",".join(chars), "another string" if got["t"] == "string" else got["t"]),
@@ -212,6 +246,16 @@ def run(ctx: Ctx) -> int:
                 events.append({"kind": "parse", "toks": toks})
                 index.append(("value clause op=%s value_type=%s" % (case["op"], case["vt"]), text))
     ctx.cov["replayed_op_cases"] = len(ops)
+    # ---- present / absent
+    r = ctx.tlc("MC_C19", 'SPECIFICATION Spec\nCONSTANT FAMILY = "presence"\nINVARIANT PresenceIsComplement\nCHECK_DEADLOCK FALSE\n', dump=True, name="present / absent x attribute states x key forms")
+    pres = [(s["case"], s["exp"]) for s in read_dump(r.dump) if s["case"].get("op") == "presence"]
+    for (case, exp), (text, bad) in zip(pres, pmap(_replay_presence, pres)):
+        for sig, c in bad:
+            ctx.disagree(sig, c)
+        if text is not None and tokenize(text) is not None:
+            events.append({"kind": "parse", "toks": tokenize(text)})
+            index.append(("presence clause", text))
+    ctx.cov["replayed_presence_cases"] = len(pres)
     ctx.sample({"case": ops[len(ops) // 2][0], "decision": ops[len(ops) // 2][1]})
     # ---- literals
     r = ctx.tlc("MC_C19", 'SPECIFICATION Spec\nCONSTANT FAMILY = "strings"\nINVARIANT Synonyms\nCHECK_DEADLOCK FALSE\n', dump=True, name="policy strings")
